@@ -33,6 +33,11 @@ def cases(shard, tier):
                                                        ['unset', 'equal', 'larger', 'moredims', 'smaller'],
                                                        ['inline', 'dict']):
         yield {'dtype': d, 'topo': shard['topo'], 'width': width, 'cast': cast, 'dim': dim, 'el': el, 'src': src}
+        if src == 'dict' and dim == 'unset' and el in ('unset', 'larger'):
+            # the same objects were written before with data of another width / another dtype
+            for earlier in ('other-width', 'other-dtype'):
+                yield {'dtype': d, 'topo': shard['topo'], 'width': width, 'cast': cast, 'dim': dim, 'el': el, 'src': src,
+                       'earlier': earlier}
 
 
 def make_spec(c):
@@ -102,10 +107,44 @@ def make_spec(c):
     return sp
 
 
+def _with_earlier_write(c, sp):
+    import os
+    from mc.engine import scratch_dir
+    b = S.build(sp)
+    res = {'status': b.status, 'failed_at': b.failed_at, 'write': 'skipped', 'data': None}
+    if b.failed_at is not None:
+        return res
+    kw = S.write_kwargs(sp, b)
+    w = None if c['width'] == 's' else c['width']
+    if c['earlier'] == 'other-width':
+        dt, shape = c['dtype'], ([2, 2] if w is None else ([2] if w == 1 else [2, w - 1]))
+    else:
+        dt, shape = ('float32' if c['dtype'] != 'float32' else 'uint16'), ([2] if w is None else [2, w])
+    n = 1
+    for k in shape:
+        n *= k
+    first = dict(kw['data'])
+    first['CH-T'] = S.make_array(S.arr_spec(dt, shape, [PAL[dt][k % len(PAL[dt])] for k in range(n)]))
+    p1 = os.path.join(scratch_dir(), 'c08-first.dlis')
+    try:
+        b.df.write(p1, **dict(kw, data=first))
+    except Exception as e:  # noqa
+        # the earlier write itself may legitimately be refused (e.g. user element limit too small for it)
+        pass
+    p2 = os.path.join(scratch_dir(), 'out.dlis')
+    try:
+        b.df.write(p2, **kw)
+        res['write'] = 'ok'
+        res['data'] = open(p2, 'rb').read()
+    except Exception as e:  # noqa
+        res['write'] = f"raised:{type(e).__name__}: {e}"
+    return res
+
+
 def run_case(c):
     must_raise = c['dim'] == 'different' or (c['el'] == 'smaller' and c['width'] not in ('s', 1))
     sp = make_spec(c)
-    res = S.run_spec(sp)
+    res = _with_earlier_write(c, sp) if c.get('earlier') else S.run_spec(sp)
     viol = []
     raised = res['failed_at'] is not None or res['write'] != 'ok'
     if must_raise:
@@ -121,7 +160,7 @@ def run_case(c):
         lfs = R.split_logical_files(R.parse_physical(res['data']))
         m = M.Model(sp)
         for code, d in M.check_channel_descriptors(m, m.lfs[0], lfs[0]) + M.check_rows(m, m.lfs[0], lfs[0]):
-            viol.append((f"C08:{code}", f"{d[:300]} | {c}"))
+            viol.append((f"C08:{code}" + (':after-earlier-write' if c.get('earlier') else ''), f"{d[:300]} | {c}"))
     except R.FormatError as e:
         viol.append((f"C08:unparsable:{e.code}", f"{e} | {c}"))
-    return Outcome(f"ok:{c['topo']}:{c['el']}", viol, True, digest=sha(res['data']))
+    return Outcome(f"ok:{c['topo']}:{c['el']}" + (':rewrite' if c.get('earlier') else ''), viol, True, digest=sha(res['data']))
